@@ -433,6 +433,148 @@ def _unroll_block(M, fn, stmts: List[ast.stmt], changed: List[str], top=None) ->
     return out
 
 
+# ------------------------------------------------------------------ dict dispatch
+def _dict_node(M, fn, top: ast.FunctionDef, e: ast.AST) -> Optional[ast.Dict]:
+    """the dict display a name denotes: a local assigned once (never mutated), or a module / class level literal"""
+    if isinstance(e, ast.Dict):
+        return e
+    if isinstance(e, ast.Name):
+        ds = [n for n in ast.walk(top) if isinstance(n, (ast.Assign, ast.AnnAssign)) and
+              isinstance(n.targets[0] if isinstance(n, ast.Assign) else n.target, ast.Name) and
+              (n.targets[0] if isinstance(n, ast.Assign) else n.target).id == e.id]
+        stores = [n for n in ast.walk(top) if isinstance(n, ast.Name) and n.id == e.id and isinstance(n.ctx, (ast.Store, ast.Del))]
+        if len(ds) == 1 and len(stores) == 1 and isinstance(ds[0].value, ast.Dict):
+            # never mutated: no subscript store / method call other than get / keys / values / items on it
+            for n in ast.walk(top):
+                if isinstance(n, ast.Subscript) and isinstance(n.ctx, (ast.Store, ast.Del)) and isinstance(n.value, ast.Name) and n.value.id == e.id:
+                    return None
+                if isinstance(n, ast.Call) and isinstance(n.func, ast.Attribute) and isinstance(n.func.value, ast.Name) and \
+                        n.func.value.id == e.id and n.func.attr not in ("get", "keys", "values", "items"):
+                    return None
+            return ds[0].value
+        if not stores:
+            mod = M.mods[fn.mod]
+            for st in mod.tree.body:
+                tgt = st.targets[0] if isinstance(st, ast.Assign) and len(st.targets) == 1 else (st.target if isinstance(st, ast.AnnAssign) else None)
+                if isinstance(tgt, ast.Name) and tgt.id == e.id and isinstance(getattr(st, "value", None), ast.Dict):
+                    return st.value
+    return None
+
+
+def _expand_dispatch(M, fn, top: ast.FunctionDef, stmts: List[ast.stmt], changed: List[str]) -> List[ast.stmt]:
+    """`if v in TABLE: body(TABLE[v])`  ->  `if v == K1: body(V1) elif v == K2: body(V2) ...` (else-part kept)"""
+    out = []
+    for st in stmts:
+        for fld in ("body", "orelse", "finalbody"):
+            if isinstance(getattr(st, fld, None), list) and not isinstance(st, (ast.FunctionDef, ast.AsyncFunctionDef, ast.ClassDef)):
+                setattr(st, fld, _expand_dispatch(M, fn, top, getattr(st, fld), changed))
+        if isinstance(st, ast.If) and isinstance(st.test, ast.Compare) and len(st.test.ops) == 1 and isinstance(st.test.ops[0], ast.In) and \
+                isinstance(st.test.left, ast.Name):
+            d = _dict_node(M, fn, top, st.test.comparators[0])
+            var = st.test.left.id
+            tname = ast.unparse(st.test.comparators[0])
+            if d is not None and 0 < len(d.keys) <= 16 and all(k is not None for k in d.keys) and \
+                    not any(isinstance(n, ast.Name) and n.id == var and isinstance(n.ctx, ast.Store) for b in st.body for n in ast.walk(b)):
+                class Sub(ast.NodeTransformer):
+                    def __init__(self, val):
+                        self.val = val
+
+                    def visit_Subscript(self, n):
+                        if ast.unparse(n.value) == tname and isinstance(n.slice, ast.Name) and n.slice.id == var:
+                            return ast.copy_location(copy.deepcopy(self.val), n)
+                        return self.generic_visit(n)
+
+                    def visit_Call(self, n):
+                        if isinstance(n.func, ast.Attribute) and n.func.attr == "get" and ast.unparse(n.func.value) == tname and n.args and \
+                                isinstance(n.args[0], ast.Name) and n.args[0].id == var:
+                            return ast.copy_location(copy.deepcopy(self.val), n)
+                        return self.generic_visit(n)
+                chain = None
+                tail = st.orelse
+                for k, v in reversed(list(zip(d.keys, d.values))):
+                    body = [_AttrCalls().visit(Sub(v).visit(copy.deepcopy(b))) for b in st.body]
+                    test = ast.Compare(left=ast.Name(id=var, ctx=ast.Load()), ops=[ast.Eq()], comparators=[copy.deepcopy(k)])
+                    node = ast.If(test=test, body=body, orelse=tail if chain is None else [chain])
+                    chain = ast.fix_missing_locations(ast.copy_location(node, st))
+                changed.append("dispatch")
+                out.append(chain)
+                continue
+        out.append(st)
+    return out
+
+
+# ------------------------------------------------------------------ local closures
+def _inline_closures(node: ast.FunctionDef, changed: List[str]) -> None:
+    """calls of a nested `def f(a, b): [simple statements]; return <expr>` (after forward substitution a single return) are
+    replaced by the expression; complex arguments are bound to fresh locals placed before the statement"""
+    closures = {}
+    for st in node.body:
+        if isinstance(st, ast.FunctionDef) and not st.decorator_list and not st.args.vararg and not st.args.kwarg and not st.args.kwonlyargs:
+            c = copy.deepcopy(st)
+            _split_tuple_assigns(c)
+            _forward_subst(c, set())
+            b = _body_wo_doc(c)
+            if len(b) == 1 and isinstance(b[0], ast.Return) and b[0].value is not None and \
+                    not any(isinstance(n, ast.Name) and n.id == st.name for n in ast.walk(b[0])):
+                closures[st.name] = c
+    if not closures:
+        return
+    # a closure name that is re-bound or passed around as a value is left alone
+    for n in ast.walk(node):
+        if isinstance(n, ast.Name) and n.id in closures and isinstance(n.ctx, ast.Store):
+            closures.pop(n.id, None)
+
+    class Inl(ast.NodeTransformer):
+        def __init__(self):
+            self.pre = []
+
+        def visit_FunctionDef(self, n):
+            return n
+
+        def visit_Call(self, n):
+            n = self.generic_visit(n)
+            if isinstance(n.func, ast.Name) and n.func.id in closures and not n.keywords and not any(isinstance(a, ast.Starred) for a in n.args):
+                c = closures[n.func.id]
+                ps = [a.arg for a in c.args.args]
+                dflt = dict(zip(ps[::-1], c.args.defaults[::-1]))
+                if len(n.args) > len(ps):
+                    return n
+                mp = {}
+                for i, p_ in enumerate(ps):
+                    v = n.args[i] if i < len(n.args) else dflt.get(p_)
+                    if v is None:
+                        return n
+                    if isinstance(v, (ast.Name, ast.Constant)) or (isinstance(v, ast.Attribute) and isinstance(v.value, ast.Name)):
+                        mp[p_] = v
+                    else:
+                        tmp = f"__{n.func.id}_{p_}_{next(_counter)}"
+                        self.pre.append(ast.fix_missing_locations(ast.copy_location(
+                            ast.Assign(targets=[ast.Name(id=tmp, ctx=ast.Store())], value=copy.deepcopy(v)), n)))
+                        mp[p_] = ast.Name(id=tmp, ctx=ast.Load())
+                changed.append("closure:" + n.func.id)
+                return ast.copy_location(_Rename(mp).visit(copy.deepcopy(_body_wo_doc(c)[0].value)), n)
+            return n
+
+    for block in _blocks(node):
+        i = 0
+        while i < len(block):
+            st = block[i]
+            if isinstance(st, (ast.FunctionDef, ast.AsyncFunctionDef, ast.ClassDef)):
+                i += 1
+                continue
+            inl = Inl()
+            if isinstance(st, (ast.For, ast.While, ast.If, ast.With, ast.Try)):
+                for fld in ("test", "iter"):
+                    if hasattr(st, fld):
+                        setattr(st, fld, inl.visit(getattr(st, fld)))
+            else:
+                block[i] = inl.visit(st)
+            if inl.pre:
+                block[i:i] = inl.pre
+                i += len(inl.pre)
+            i += 1
+
+
 # ------------------------------------------------------------------ optional steps
 def _guards_to_else(stmts: List[ast.stmt]) -> List[ast.stmt]:
     out = []
@@ -512,7 +654,9 @@ def _forward_subst(fn_node: ast.FunctionDef, keep: set) -> None:
                     continue
                 rest = block[i + 1:]
                 uses = [n for s2 in rest for n in ast.walk(s2) if isinstance(n, ast.Name) and n.id == v and isinstance(n.ctx, ast.Load)]
-                if not uses or len(uses) != loads.get(v, 0) or len(uses) > 3:
+                trivial = isinstance(st.value, (ast.Name, ast.Constant)) or (isinstance(st.value, ast.Attribute) and
+                                                                         isinstance(st.value.value, (ast.Name, ast.Attribute)))
+                if not uses or len(uses) != loads.get(v, 0) or (len(uses) > 3 and not trivial):
                     continue
                 # stores THROUGH the name (v.x = .., v[i] = .., v.at[..] = ..) mean the object is mutated: keep it
                 mutated = False
@@ -608,12 +752,14 @@ def normalise(M, fn, subst: bool = False, guards: bool = False, keep=()) -> ast.
         locs = _locals_of(node)
         node.body = _inline_block(M, fn, node.body, locs, changed, 0)
         node.body = _unroll_block(M, fn, node.body, changed, node)
+        node.body = _expand_dispatch(M, fn, node, node.body, changed)
         node = _AttrCalls().generic_visit(node) if True else node
         if not changed:
             break
     if guards:
         node.body = _guards_to_else(node.body)
     if subst:
+        _inline_closures(node, [])
         _split_tuple_assigns(node)
         _forward_subst(node, set(keep))
     node = _OperatorCalls(M, fn).visit(node)
